@@ -109,6 +109,45 @@ Theorem registration_during_dispatch_is_local :
 Proof. exact reactions_local. Qed.
 Print Assumptions registration_during_dispatch_is_local.
 
+(* all mechanisms agree in the dynamic setting too: two handlers that are registered over the same stretches of the history
+   ([same_presence]: at every operation both or neither are live) see the same (old, new) sequence, when != is false
+   exactly when == is true *)
+Theorem three_mechanisms_agree_while_registered :
+  forall E reacts id1 id2 ops st, wfd st -> coherent_eq E -> same_presence E reacts id1 id2 st ops ->
+    map strip (calls_of id1 (dall_calls (drun E reacts st ops))) = map strip (calls_of id2 (dall_calls (drun E reacts st ops))).
+Proof. exact dmechanisms_agree. Qed.
+Print Assumptions three_mechanisms_agree_while_registered.
+
+(* which handlers raise (those present from the start, those registered later by an operation or by another handler)
+   changes neither outcome, stored value nor call list of any step — with handlers coming and going *)
+Theorem handler_exception_transparent_with_handlers_coming_and_going :
+  forall E reacts f g ops st,
+    map (fun p => visible (snd p))
+        (drun (set_raises f E) (setr_reacts f reacts) (setr_state f st) (map (setr_op f) ops))
+    = map (fun p => visible (snd p))
+        (drun (set_raises g E) (setr_reacts g reacts) (setr_state g st) (map (setr_op g) ops)).
+Proof. exact dyn_raising_transparent. Qed.
+Print Assumptions handler_exception_transparent_with_handlers_coming_and_going.
+
+(* obj._trait_change_notify(False) (HASTRAITS_NO_NOTIFY) as operations of the history: while it is in force nobody is
+   called and the notifier lists do not change; the two theorems above cover whole histories containing such phases *)
+Theorem switched_off_is_silent :
+  forall E reacts st op, d_quiet st = true ->
+    o_calls (snd (dstep E reacts st (DOp op))) = [] /\ o_sink (snd (dstep E reacts st (DOp op))) = []
+    /\ live (fst (dstep E reacts st (DOp op))) = live st.
+Proof. exact quiet_silent. Qed.
+Print Assumptions switched_off_is_silent.
+
+Example switched_off_and_on_again :
+  let E := {| e_eq := fun a b => if a =? b then CTrue else CFalse; e_ne := fun a b => if a =? b then CFalse else CTrue;
+              e_validate := fun v => if v =? 7 then None else Some v; e_default := 9; e_kind := TNormal MEquality;
+              e_handlers := [mkHandler 1 StaticChanged false; mkHandler 10 Observe false]; e_store_original := false |} in
+  let ops := [DOp (Assign 1); DNotify false; DOp (Assign 2); DOp Delete; DOp (Assign 3); DNotify true; DOp (Assign 4);
+              DNotify false; DOp (QuietAssign 7); DOp (Assign 5)] in
+  map (fun p => (o_slot (snd p), length (o_calls (snd p)))) (drun E [] (init E) ops)
+  = [(Some 1, 2); (Some 1, 0); (Some 2, 0); (None, 0); (Some 3, 0); (Some 3, 0); (Some 4, 2); (Some 4, 0); (Some 4, 0); (Some 5, 2)].
+Proof. vm_compute. reflexivity. Qed.
+
 (* Non-vacuity: on_trait_change handler 10 from the start; observe handler 30 registered after the first change; 31
    (object level) unregisters itself when called; 32 removes 30 when called (30 is still served for that change) and
    registers 33 (not served yet); then 10 is removed explicitly *)
